@@ -5,7 +5,7 @@ import ast
 
 from ..callgraph import CallGraph
 from ..core import AnalysisError, RuleContext, need, norm, short
-from ..flagstate import analyse_flag_function, discover_flags, functions_touching
+from ..flagstate import analyse_cm, analyse_flag_function, discover_flags, functions_touching
 from ..roles import roles_for
 from ..typestate import NoReturn
 from . import c05
@@ -28,11 +28,16 @@ def run_flag_typestate(ctx: RuleContext, tag: str, only_attr_of=None, cg=None):
     for fl in sorted(flags, key=lambda f: f.name):
         need(fl.setters or fl.mixed, f"flag {fl.name}: no function sets it (role lost)")
         fns = functions_touching(m, cg, fl)
-        need(fns, f"flag {fl.name}: nobody outside _storage sets/clears it (anchor lost)")
-        for fn in sorted(fns, key=lambda f: f.qualname):
+        jobs = [(fn, None) for fn in sorted(fns, key=lambda f: f.qualname)]
+        for cmc in sorted(fl.cms, key=lambda c: c.qualname):
+            cm_results, _ok = analyse_cm(m, r, cg, fl, cmc, noret)
+            for cr in cm_results:
+                jobs.append((cr.fn, cr))
+        need(jobs, f"flag {fl.name}: nobody sets/clears it outside the primitive helpers (anchor lost)")
+        for fn, pre in jobs:
             n_fn += 1
             ctx.saw(fn)
-            res = analyse_flag_function(m, r, cg, fl, fn, noret)
+            res = pre if pre is not None else analyse_flag_function(m, r, cg, fl, fn, noret)
             results.append((fl, res))
             st = res.cfg.stats()
             ctx.count("cfg_nodes", st["nodes"])
